@@ -795,7 +795,7 @@ REQUIRED_SITUATIONS = [
     "announce.new", "announce.ignored", "announce.same-identity", "announce.region-change",
     "announce.region-change.to-regionless", "announce.region-change.from-regionless", "announce.local-id-change",
     "announce.reparent", "announce.adopts-orphans", "announce.becomes-orphan", "kill.victims=0", "kill.victims=1",
-    "kill.victims=2", "kill.spares-avatar-child", "teardown.unloads-objects", "teardown.unloads-objects.of-untracked-region", "tag:target-regionless",
+    "kill.victims=2", "kill.spares-avatar-child", "teardown.unloads-objects", "teardown.unloads-objects.of-untracked-region", "tag:track-adopts-stragglers", "tag:target-regionless",
     "tag:cachedHit-known-fullid", "tag:kill-untracked-parent-of-avatar", "tag:cancels-requests",
     "request.resolved-by:Announce:full", "request.resolved-by:Announce:compressed", "request.resolved-by:Announce:cachedHit",
     "request.resolved-by:Touch:terse", "request.resolved-by:Touch:cachedSame", "request.resolved-by:Props:",
@@ -994,8 +994,7 @@ class Sim:
                 return None
             return {"n": "Request", "r": r, "l": l, "ty": ty}
         if x < 0.95:
-            un = [r for r in U.get("trackable", TRACKABLE) if r not in self.tracked
-                  and not any(v and v[0] == r for v in self.obj.values())]
+            un = [r for r in U.get("trackable", TRACKABLE) if r not in self.tracked]
             return {"n": "Track", "r": rng.choice(un)} if un else None
         return {"n": "Teardown", "r": rng.choice(U.get("trackable", TRACKABLE))}
 
@@ -1242,8 +1241,6 @@ def run(chk: Check):
                        "kills and a region teardown.")
     chk.assumptions += [
         "simulator never gives one local ID to two live objects of a region; parent links form no cycle (guards)",
-        "a region's handshake (Track) arrives while nothing is attributed to the region: an object that a straggler "
-        "update moved into a not yet / no longer tracked region is gone (moved on, region unloaded) before that",
         "every update message changes at least one property value (the code runs its hooks, which resolve requests, "
         "only then)",
         "the event loop runs between two messages (B1: one block per message; B2: also multi-block messages, whose "
